@@ -203,9 +203,12 @@ func (co *coord) runBox(bi int, deadline time.Time) *boxStats {
 			st.Poisoned++
 		}
 		if len(viols) > 0 && !aborted {
-			if box.Mode == "A" {
+			if box.Mode == "A" || box.CollectAll {
 				// finish the level so that the reported counterexample is the smallest of
-				// its length (deterministic across runs); the search stops after the level
+				// its length (deterministic across runs); the search stops after the level.
+				// Box B with CollectAll: finish the deviation layer (violating transitions
+				// are not expanded), so that every violated invariant is reported with its
+				// shortest run, not only the one a worker happened to reach first
 				violated = true
 			} else {
 				aborted = true
@@ -389,6 +392,10 @@ func (co *coord) runBox(bi int, deadline time.Time) *boxStats {
 				tasks = emit(mkTasks(more, uint8(d), 4))
 			}
 			for pending == 0 {
+				if violated {
+					aborted = true
+					break
+				}
 				// layer d is closed under free continuations
 				st.CompletedDev = d
 				st.StatesPerDev = append(st.StatesPerDev, inLayer)
@@ -477,7 +484,7 @@ func run(prop string) int {
 	os.Setenv("RAFTMC_COORD", strconv.Itoa(os.Getpid()))
 	total := 100 * time.Second
 	if tier == "thorough" {
-		total = 24 * time.Minute // 17 min for the boxes up to round 2 + 7 min for the apply-lag boxes B10 / B11
+		total = 30 * time.Minute // 17 min for the boxes up to round 2 + 7 min for the apply-lag boxes B10 / B11 + 6 min for the persist-lag boxes B12*
 	}
 	if s := os.Getenv("RAFTMC_BUDGET_S"); s != "" {
 		if n, err := strconv.Atoi(s); err == nil {
@@ -679,7 +686,7 @@ func run(prop string) int {
 		"msgapps_that_truncated_* = a MsgApp stepped by such a node replaced unstable entries (conflict with a leader of a later term) / starting strictly inside the unstable entries (the third case of unstable.truncateAndAppend) / starting inside the index range of the held Ready's Entries, i.e. the slots the application is about to persist"
 	cov["persist_lag_coverage"] = plagcov
 	assumptions := []string{
-		"a node's local step and the handling of the Ready structs it produces (persist, send, apply, Advance) form one atomic transition; a crash in between is represented by crash + message loss. Exception: boxes with lag in their alphabet (B10, B11): a node in lag mode persists and sends a Ready with committed entries but holds its committed page and its Advance; until apply / unlag the library is called without a Ready cycle (no further Ready is taken while one is held, like etcd's node.run). The application installs a Ready's snapshot when it persists the Ready (raftexample's order), before the held page",
+		"a node's local step and the handling of the Ready structs it produces (persist, send, apply, Advance) form one atomic transition; a crash in between is represented by crash + message loss. Exceptions: boxes with plag in their alphabet (B12*, next item) and boxes with lag in their alphabet (B10, B11): a node in lag mode persists and sends a Ready with committed entries but holds its committed page and its Advance; until apply / unlag the library is called without a Ready cycle (no further Ready is taken while one is held, like etcd's node.run). The application installs a Ready's snapshot when it persists the Ready (raftexample's order), before the held page",
 		"persist lag (boxes B12*): a node in plag mode holds every Ready as a whole - nothing persisted, sent or applied - until persist(n), which handles it from the held value in raftexample's order (HardState, snapshot, entries, messages, committed entries, Advance); inputs in between call the library without a Ready cycle; a crash loses the held Ready. The state key then also contains the held Ready's HardState, entry range and content hash, snapshot boundary, message count and content hash",
 		"while a node holds a Ready the state key additionally contains the held page (index range, content hash), what its Advance will mark stable, and what the RawNode has not handed out: unstable entries, unstable snapshot boundary and queued messages, read through reflection offsets (raft.msgs, raftLog.unstable); the lag flag is application state and survives a crash, a held Ready does not",
 		"elections are started only by the campaign event: ElectionTick is larger than any number of ticks in a run (pass 1) or the randomised election timeout is pinned (passes with PreVote/CheckQuorum)",
